@@ -455,10 +455,16 @@ def run_origin_sequence(rec, case):
     rec.count('origin_sequences')
     rec.key('oseq/%s/%s/%d' % (srv, cfgname, sd % 7))
     hosts = ['srv.test', 'evil.example', 'other.test:8080']
-    state = {'ok': set()}
+    state = {'ok': set(), 'boom': set()}
     kw = {}
     if cfgname == 'callable':
-        kw['cors_allowed_origins'] = lambda o: o in state['ok']
+        def predicate(o):
+            # (an application predicate may fail, e.g. its store is down:
+            # that is no permission)
+            if o in state['boom']:
+                raise RuntimeError('origin store unavailable')
+            return o in state['ok']
+        kw['cors_allowed_origins'] = predicate
     sim = scen.make_sim(srv, server_kwargs=kw)
     log = []
     try:
@@ -473,7 +479,8 @@ def run_origin_sequence(rec, case):
             if cfgname == 'callable':
                 state['ok'] = set(r.sample(['http://' + x for x in hosts],
                                            r.randint(0, 2)))
-                ok = origin in state['ok']
+                state['boom'] = {origin} if r.random() < 0.25 else set()
+                ok = origin in state['ok'] and not state['boom']
             else:
                 ok = origin in ('http://' + host,
                                 ('http://' + xfh) if xfh else None)
@@ -497,10 +504,16 @@ def run_origin_sequence(rec, case):
                 sim.quiesce()
                 t = sim.poll(h, headers=hd)
             sim.quiesce()
-            log.append((kind, host, xfh, origin, ok, t.status))
+            log.append((kind, host, xfh, origin,
+                        'predicate raises' if state['boom'] else ok,
+                        t.status))
             refused = t.done and (t.code == 400 or (
                 ws is not None and srv == 'A' and not ws.accepted and
                 ws.server_closed))
+            if state['boom'] and t.done and (
+                    t.exc is not None or t.code == 500 or
+                    getattr(t, 'no_response', False)):
+                refused = True      # the predicate's failure surfaced
             desc = ('request #%d (%s, Host %s, X-Forwarded-Host %s, Origin %s) '
                     'of the sequence %r '
                     'cors_allowed_origins=%s server=%s' % (
